@@ -384,7 +384,19 @@ func checkMarshalText(r *Run, out []byte, model []*MV, roots bool, what string) 
 		}
 		res = RefParseND(out)
 		if !res.OK {
-			r.violate("W-marshal", "invalid-json", fmt.Sprintf("%s: output rejected by the reference parser (%s at %d): %s", what, res.Err, res.ErrOff, shortBytes(out)))
+			// a document whose top-level value was replaced by null marshals as a bare scalar line
+			res = RefResult{OK: true}
+			for _, line := range bytes.Split(out, []byte{'\n'}) {
+				v, ok := refParseValue(line)
+				if !ok {
+					res.OK = false
+					break
+				}
+				res.Roots = append(res.Roots, v)
+			}
+		}
+		if !res.OK {
+			r.violate("W-marshal", "invalid-json", fmt.Sprintf("%s: output rejected by the reference parser: %s", what, shortBytes(out)))
 			return
 		}
 		if bytes.Count(out, []byte{'\n'}) != len(model)-1 {
@@ -633,6 +645,12 @@ func parseNewReuse(r *Run, doc []byte, cfg parseCfg, what string, reuse *simdjso
 		walkerFail(r, "panic", what, err)
 		return nil
 	}
+	if perr == nil && pj != nil {
+		if terr := CheckTape(pj, false); terr != nil {
+			r.violate("tape", "parsed", fmt.Sprintf("%s (%s): %v", what, cfg, terr))
+			return nil
+		}
+	}
 	if ref.Ambiguous {
 		return nil
 	}
@@ -648,7 +666,8 @@ func parseNewReuse(r *Run, doc []byte, cfg parseCfg, what string, reuse *simdjso
 
 var setValsInt = []int64{0, 1, -1, 42, math.MaxInt64, math.MinInt64, 1 << 53, -(1 << 31)}
 var setValsUint = []uint64{0, 1, math.MaxUint64, 1 << 63, 1<<63 - 1, 12345678901234567890}
-var setValsFloat = []float64{0, 1.5, -2.25, 1e21, 1e-7, 5e-324, math.MaxFloat64, 0.1, 1e20, 123456789.125, -0.0}
+var setValsFloat = []float64{0, 1.5, -2.25, 1e21, 1e-7, 5e-324, math.MaxFloat64, 0.1, 1e20, 123456789.125, -0.0,
+	9223372036854775808.0, -9223372036854775808.0, 18446744073709551616.0, 9223372036854774784.0, 4294967296.0, 9007199254740992.0}
 
 func drawSetString(c *Chooser) []byte {
 	switch c.Intn("ssk", 5) {
@@ -681,9 +700,14 @@ func opSet(r *Run, o *simObj, what string) {
 	c := r.C
 	poss := allPositions(o.model, true)
 	if len(poss) == 0 {
-		return
+		// nothing below the top level (e.g. [] or a document already nulled): address the top-level value itself
+		poss = []Pos{{c.Intn("setroot0", len(o.model))}}
 	}
 	pos := poss[c.Intn("setpos", len(poss))]
+	if c.Intn("settoplevel", 25) == 0 {
+		// the top-level value of a document is a value position too (SetNull accepts objects and arrays)
+		pos = Pos{c.Intn("setroot", len(o.model))}
+	}
 	if len(poss) > 5000 && c.Intn("setcontainer", 2) == 0 {
 		// big documents: scalars outnumber containers by far; aim at a (non-root) container half of the time
 		var cs []Pos
@@ -776,7 +800,11 @@ func opSet(r *Run, o *simObj, what string) {
 			r.violate("set", "allowed-rejected", fmt.Sprintf("%s: %s on a %s at %v returned %v", what, name, cur.K, pos, serr))
 			return
 		}
-		setAt(o.model, pos, nv)
+		if len(pos) == 1 {
+			o.model[pos[0]] = nv
+		} else {
+			setAt(o.model, pos, nv)
+		}
 		o.edited = true
 		r.stat("set_applied", 1)
 		// the iterator itself must now read back the new value
@@ -812,7 +840,11 @@ func opSet(r *Run, o *simObj, what string) {
 				return
 			}
 			r.trace("%s: SetNull through the same iterator after the rejected call", what)
-			setAt(o.model, pos, mvNull())
+			if len(pos) == 1 {
+				o.model[pos[0]] = mvNull()
+			} else {
+				setAt(o.model, pos, mvNull())
+			}
 			o.edited = true
 			r.stat("set_applied", 1)
 		}
